@@ -26,6 +26,12 @@ func (c *fctx) lvalSet(e ast.Expr, val string) {
 			c.fail(e, "assignment to %s", x.Name)
 		}
 		c.letPure(c.name(v), c.vtype(e, v), val)
+		// a pointer that aliases part of another object (x := y.F / y.(*T)): writes through it are writes to that object
+		if vw, ok := c.views[v]; ok && !c.inViewWriteback {
+			c.inViewWriteback = true
+			c.lvalSet(vw.src, fmt.Sprintf(vw.wrap, c.name(v)))
+			c.inViewWriteback = false
+		}
 	case *ast.StarExpr:
 		c.lvalSet(x.X, val)
 	case *ast.SelectorExpr:
@@ -318,6 +324,7 @@ func (c *fctx) assign(s *ast.AssignStmt) {
 		}
 		if len(s.Lhs) == 1 {
 			c.lvalSet(s.Lhs[0], c.rhsFor(s.Lhs[0], s.Rhs[0]))
+			c.recordView(s.Lhs[0], s.Rhs[0])
 			return
 		}
 		var vals []string
@@ -558,8 +565,51 @@ func (c *fctx) faultOnly(e ast.Expr) {
 			if tv, ok := c.info.Types[x.Fun]; ok && tv.IsType() {
 				return true
 			}
+			if sel, ok := x.Fun.(*ast.SelectorExpr); ok && sel.Sel.Name == "String" && len(x.Args) == 0 {
+				if _, isBasic := c.info.Types[sel.X].Type.Underlying().(*types.Basic); isBasic {
+					return true // Stringer of a named basic type: reads a table
+				}
+			}
 			c.fail(x, "call inside an error message")
 		}
 		return true
 	})
+}
+
+type viewInfo struct {
+	src  ast.Expr // the object the pointer points into
+	wrap string   // format of the value to store back, %s = the pointer variable
+}
+
+// x := y.(*T)  or  x := y.F (F of pointer-to-struct type): x aliases y
+func (c *fctx) recordView(lhs, rhs ast.Expr) {
+	id, ok := lhs.(*ast.Ident)
+	if !ok {
+		return
+	}
+	v := c.localVar(id)
+	if v == nil {
+		return
+	}
+	if _, isPtr := v.Type().(*types.Pointer); !isPtr {
+		return
+	}
+	delete(c.views, v)
+	switch x := rhs.(type) {
+	case *ast.TypeAssertExpr:
+		tt := derefNamed(c.info.Types[x.Type].Type)
+		it := c.info.Types[x.X].Type
+		if tt == nil || rootVar(c.info, x.X) == nil {
+			return
+		}
+		c.views[v] = viewInfo{src: x.X, wrap: "(" + c.ltype(rhs, it) + "." + san(tt.Obj().Name()) + " %s)"}
+	case *ast.SelectorExpr:
+		if sel, ok := c.info.Selections[x]; ok && sel.Kind() == types.FieldVal && rootVar(c.info, x) != nil {
+			if pt, ok := c.info.Types[x].Type.(*types.Pointer); ok {
+				if _, ok := pt.Elem().Underlying().(*types.Struct); ok {
+					c.views[v] = viewInfo{src: x, wrap: "%s"}
+				}
+			}
+		}
+	}
 }
